@@ -65,6 +65,45 @@ var abortAllow = map[string]string{
 	"(*pkg/statsd.GenericBatchReader).ReadBatch:abort:panic(\"attempt to read 0 packets\")#1": "start-up configuration error (receive-batch-size 0), not reachable from network input: guarded by len(ms) == 0 and the batch slice has the configured size (assumption receiveBatchSize >= 1)",
 }
 
+func init() {
+	abortAllow["(*pkg/backends/statsdaemon.Client).processMetrics$1:abort:panic(call(builtin recover))#1"] = "re-raises a foreign panic only: the deferred function recovers, and swallows the value when it is the local stopProcessing marker"
+	abortAllow["(*pkg/backends/statsdaemon.Client).processMetrics$3:abort:panic(nil)#1"] = "control-flow panic(stopProcessing{}) that is always recovered by the deferred function of processMetrics (same function, registered before any write)"
+}
+
+// indexLemmas: obligations that depend on a data-structure invariant outside linear arithmetic.
+var indexLemmas = map[string]string{
+	"pkg/backends/otlp/internal/data.WithHistogramDataPointCumulativeBucketValues$1:index:hdp.raw.ExplicitBounds[(phi:rangeindex+1)]#1": "a non-empty Timer.Histogram always contains the +Inf bucket (emptyHistogram and latencyHistogram store it on every path that returns a non-empty map, C08.R3), the bounds are sorted so +Inf is last, and the write is guarded by !math.IsInf(bound, 1): the index is therefore at most len(buckets)-2 = len(ExplicitBounds)-1",
+}
+
+// obKeyNoGenerics drops the type-argument list of generic instantiations from a key.
+func obKeyNoGenerics(k string) string {
+	for {
+		i := strings.Index(k, "[map[")
+		if i < 0 {
+			i = strings.Index(k, "[gostatsd.")
+		}
+		if i < 0 {
+			return k
+		}
+		depth, j := 0, i
+		for ; j < len(k); j++ {
+			if k[j] == '[' {
+				depth++
+			}
+			if k[j] == ']' {
+				depth--
+				if depth == 0 {
+					break
+				}
+			}
+		}
+		if j >= len(k) {
+			return k
+		}
+		k = k[:i] + k[j+1:]
+	}
+}
+
 var assertLemmas = map[string]string{
 	"(*internal/pool.DatagramBufferPool).Get:assert:call((*sync.Pool).Get).(*[][]byte)#1":  "pool-shape",
 	"(*internal/pool.MetricPool).Get:assert:call((*sync.Pool).Get).(*gostatsd.Metric)#1":   "pool-shape",
@@ -248,6 +287,33 @@ func (e *bndEngine) discharge(ob bndOb) bndResult {
 		if ok {
 			return bndResult{true, "the inner map is created under the same key on every path before it is written", nil}
 		}
+		// inside a callback given to <collection>.Each: the key being visited exists in that collection
+		if par := ob.Fn.Parent(); par != nil && len(ob.Fn.Params) >= 1 && lk.Index == ssa.Value(ob.Fn.Params[0]) {
+			okEach := false
+			for _, cl := range callsIn(par) {
+				cal := staticCallee(cl)
+				if cal == nil || cal.Name() != "Each" || len(cl.Common().Args) != 2 {
+					continue
+				}
+				if mc, isMC := cl.Common().Args[1].(*ssa.MakeClosure); isMC && mc.Fn == ssa.Value(ob.Fn) {
+					if pathOf(cl.Common().Args[0]) == pathOf(lk.X) {
+						okEach = true
+					}
+				}
+			}
+			// and the callback does not delete from the collection before this write on the same path
+			if okEach {
+				clean := true
+				for _, cl := range callsIn(ob.Fn) {
+					if cal := staticCallee(cl); cal != nil && cal.Name() == "deleteMetric" && instrReaches(cl, x) {
+						clean = false
+					}
+				}
+				if clean {
+					return bndResult{true, "inside the Each callback of the same collection: the visited key's inner map exists (Each passes existing keys; no deletion precedes the write on this path)", []string{"summary: <collection>.Each(f) calls f(key, tagsKey, v) only for keys present in the collection (C09.R5 sibling check pins Each)"}}
+				}
+			}
+		}
 		// the inner map exists because this very iteration ranges over the outer map's entry
 		if strings.Contains(pathOf(lk.Index), "next(range("+pathOf(lk.X)+"))#1") {
 			return bndResult{true, "the inner map is the entry currently ranged over", nil}
@@ -261,6 +327,13 @@ func (e *bndEngine) discharge(ob bndOb) bndResult {
 		if strings.Contains(ob.Key, "ByIndex") && strings.Contains(ob.Key, "*v1.Pod") {
 			return bndResult{true, "the pod informer's index only stores *v1.Pod (client-go contract; podByIpIndexFunc makes the same assertion)", []string{"lemma: client-go pod informer stores *v1.Pod objects"}}
 		}
+		if prm, isP := x.X.(*ssa.Parameter); isP {
+			if ok, why := e.assertByCallers(ob.Fn, prm, x.AssertedType.String(), 0); ok {
+				return bndResult{true, why, []string{"lemma: an interface parameter whose every caller passes the asserted concrete type"}}
+			} else {
+				return bndResult{false, "unchecked type assertion " + ob.Expr + ": " + why, nil}
+			}
+		}
 		return bndResult{false, "unchecked type assertion " + ob.Expr + " has no lemma", nil}
 	}
 	if ob.Kind == "abort" {
@@ -268,6 +341,9 @@ func (e *bndEngine) discharge(ob bndOb) bndResult {
 			return bndResult{true, "allow-listed: " + why, []string{"allow-list: " + ob.Key}}
 		}
 		return bndResult{false, "explicit abort " + ob.Expr + " reachable from the scope's entry points and not allow-listed", nil}
+	}
+	if why, ok := indexLemmas[obKeyNoGenerics(ob.Key)]; ok {
+		return bndResult{true, "lemma: " + why, []string{"lemma L11: " + why}}
 	}
 	p := e.newProver(ob.Fn, ob.In)
 	fail := e.tryProve(p, ob)
@@ -325,6 +401,40 @@ func (e *bndEngine) discharge(ob bndOb) bndResult {
 		return bndResult{false, fail + " || " + firstFail, sortedKeys(p.used)}
 	}
 	return bndResult{false, fail, sortedKeys(p.used)}
+}
+
+// assertByCallers: every static caller passes a value of dynamic type `want` for prm
+// (following pass-through parameters up to three levels).
+func (e *bndEngine) assertByCallers(fn *ssa.Function, prm *ssa.Parameter, want string, depth int) (bool, string) {
+	if depth > 3 {
+		return false, "caller chain too deep"
+	}
+	idx := -1
+	for i, q := range fn.Params {
+		if q == prm {
+			idx = i
+		}
+	}
+	cs := e.callers[fn]
+	if idx < 0 || len(cs) == 0 {
+		return false, "no static callers of " + FuncName(fn)
+	}
+	for _, cl := range cs {
+		a := cl.Common().Args[idx]
+		switch v := a.(type) {
+		case *ssa.MakeInterface:
+			if v.X.Type().String() != want {
+				return false, FuncName(cl.Parent()) + " passes " + v.X.Type().String()
+			}
+		case *ssa.Parameter:
+			if ok, why := e.assertByCallers(cl.Parent(), v, want, depth+1); !ok {
+				return false, why
+			}
+		default:
+			return false, FuncName(cl.Parent()) + " passes " + pathOf(a)
+		}
+	}
+	return true, fmt.Sprintf("every caller of %s passes a %s", FuncName(fn), want)
 }
 
 // sliceLemmas: site-specific lemmas for slice expressions.
@@ -559,6 +669,71 @@ func lexerStageA(c *Ctx, r *Rule, e *bndEngine) {
 	}
 }
 
+// lemmaWitnesses: structural witnesses for lemmas L5, L7 and the findTag summary.
+func lemmaWitnesses(c *Ctx, r *Rule, which string) {
+	w := c.W
+	if which == "C03" {
+		imm := immutableFields(w)
+		r.Check("lemma-L7-witness:frame", imm["BackendHandler.workers"] && imm["BackendHandler.numWorkers"], token.NoPos, "BackendHandler.workers and .numWorkers are only stored by the constructor's composite literal")
+		np := w.Func("internal/pool", "NewDatagramBufferPool")
+		ok := false
+		if np != nil {
+			for _, g := range WithAnon(np)[1:] {
+				eachInstr(g, func(in ssa.Instruction) {
+					if st, isSt := in.(*ssa.Store); isSt {
+						if els := varargElems(st.Val); len(els) == 1 {
+							if _, isMk := els[0].(*ssa.MakeSlice); isMk {
+								ok = true
+							}
+						}
+					}
+				})
+			}
+		}
+		r.Check("lemma-L5-witness:pool-new-shape", ok, token.NoPos, "DatagramBufferPool's New creates [][]byte{make([]byte, n)}: exactly one buffer")
+		rc := w.Func("pkg/statsd", "(*DatagramReceiver).Receive")
+		okB := rc != nil
+		if rc != nil {
+			for _, st := range fieldStores(rc, "Message", "Buffers") {
+				if !strings.Contains(pathOf(st.Val), "retBuffers") && !strings.Contains(exprString(st.Val, 0), "DatagramBufferPool).Get") {
+					if u, isU := st.Val.(*ssa.UnOp); !isU || !strings.Contains(pathOf(u.X), "makeslice[") {
+						okB = false
+					}
+				}
+			}
+		}
+		r.Check("lemma-L5-witness:buffers-from-pool", okB, token.NoPos, "Message.Buffers is only ever set to a buffer set taken from the pool")
+	}
+	if which == "C04" {
+		ft := w.Func("pkg/statsd", "findTag")
+		ok := ft != nil
+		n := 0
+		if ft != nil {
+			eachInstr(ft, func(in ssa.Instruction) {
+				rt, isR := in.(*ssa.Return)
+				if !isR {
+					return
+				}
+				if k, isC := rt.Results[1].(*ssa.Const); isC && k.Value.ExactString() == "true" {
+					n++
+					cs := strings.Join(condStrings(rt.Block()), " && ")
+					if !(strings.Contains(cs, "strings.HasPrefix(") && strings.Contains(cs, ",prefix)=true")) {
+						ok = false
+					}
+					// the returned string is the one tested
+					for _, cd := range condsFor(rt.Block()) {
+						cd = normCond(cd)
+						if cl, isCl := cd.V.(*ssa.Call); isCl && isCall(cl, "strings.HasPrefix") && cl.Call.Args[0] != rt.Results[0] {
+							ok = false
+						}
+					}
+				}
+			})
+		}
+		r.Check("findTag-shape", ok && n == 1, token.NoPos, "findTag returns (n, true) only for an element n with strings.HasPrefix(n, prefix)")
+	}
+}
+
 func readBatchContract(c *Ctx, r *Rule) {
 	w := c.W
 	for _, nm := range []string{"(*V6BatchReader).ReadBatch", "(*GenericBatchReader).ReadBatch"} {
@@ -612,7 +787,7 @@ func c03(c *Ctx) {
 		inScope[f] = true
 	}
 
-	c.Rule("C03.R2", "panic obligations over the ingestion scope are discharged", 60, func(r *Rule) {
+	c.Rule("C03.R2", "panic obligations over the ingestion scope are discharged", 85, func(r *Rule) {
 		bndRule(c, r, e, scope)
 		r.Note(fmt.Sprintf("%d functions in scope", len(scope)))
 	})
@@ -620,6 +795,7 @@ func c03(c *Ctx) {
 	c.Rule("C03.R2a", "witnesses of the assumptions used by R2: lexer next() shape, state entry conditions, frame of input/len, invariant establishment and preservation, ReadBatch contract, declared preconditions at call sites", 8, func(r *Rule) {
 		lexerStageA(c, r, e)
 		readBatchContract(c, r)
+		lemmaWitnesses(c, r, "C03")
 		preconditionRule(c, r, e, inScope)
 	})
 
@@ -707,12 +883,13 @@ func c04(c *Ctx) {
 	for _, f := range scope {
 		inScope[f] = true
 	}
-	c.Rule("C04.R1", "panic obligations over the flush scope are discharged", 60, func(r *Rule) {
+	c.Rule("C04.R1", "panic obligations over the flush scope are discharged", 120, func(r *Rule) {
 		bndRule(c, r, e, scope)
 		r.Note(fmt.Sprintf("%d functions in scope", len(scope)))
 	})
-	c.Rule("C04.R1a", "declared preconditions hold at every call site", 2, func(r *Rule) {
+	c.Rule("C04.R1a", "declared preconditions hold at every call site; witnesses of the summaries used by R1", 4, func(r *Rule) {
 		preconditionRule(c, r, e, inScope)
+		lemmaWitnesses(c, r, "C04")
 	})
 	c.Rule("C04.R2", "histogram contract: a limit-0 histogram is a non-nil empty map and untagged timers have nil; every consumer that branches on the histogram tolerates the empty non-nil case (obligations of R1 inside those branches)", 3, func(r *Rule) {
 		eh := w.Func("pkg/statsd", "emptyHistogram")
